@@ -847,3 +847,144 @@ Proof.
   rewrite (pool_views_stable (fun r => bulk_ops (reads r)) sch r (fun r0 => wf_bulk_ops (reads r0)) Hp).
   apply intended_bulk_ops.
 Qed.
+
+(* ---- which = 9: the request route in front of serveBulk ---------------------------------------------------------------
+   whatever the options (auth strategy / header / secrets, CORS, meta, emulate mode) are: a request that reaches
+   processBulk is treated exactly as serve_bulk treats its reads, and no other request hands over anything *)
+Lemma route_ingests c q : ingests c q = true -> fst (route c q) = serve_bulk (q_reads q).
+Proof.
+  unfold ingests, route. intros H.
+  destruct (Z.eqb (q_method q) 2); [discriminate|].
+  destruct (auth c q); cbn [auth_ok negb andb] in H; try discriminate.
+  destruct (bulk_route c q); [|discriminate].
+  destruct (Z.eqb (q_method q) 0); [|discriminate].
+  destruct (serve_bulk (q_reads q)) as [evs st]. reflexivity.
+Qed.
+
+Lemma route_not_ingests c q : ingests c q = false -> fst (fst (route c q)) = [].
+Proof.
+  unfold ingests, route. intros H.
+  destruct (Z.eqb (q_method q) 2); [reflexivity|].
+  destruct (auth c q); cbn [auth_ok negb andb] in H; try reflexivity.
+  destruct (bulk_route c q); [|reflexivity].
+  destruct (Z.eqb (q_method q) 0); [discriminate|reflexivity].
+Qed.
+
+Lemma lookup_exists u p l s :
+  lookup u l = Some s -> N_eqb_list s p = true ->
+  existsb (fun np => N_eqb_list (fst np) u && N_eqb_list (snd np) p) l = true.
+Proof.
+  induction l as [|[a b] l IH]; cbn [lookup existsb fst snd]; [discriminate|].
+  destruct (N_eqb_list a u) eqn:E.
+  - intros H Hp. inversion H; subst. rewrite Hp. reflexivity.
+  - intros H Hp. rewrite (IH H Hp). apply orb_true_r.
+Qed.
+
+Lemma rlookup_exists t l n :
+  rlookup t l = Some n -> existsb (fun np => N_eqb_list (snd np) t) l = true.
+Proof.
+  induction l as [|[a b] l IH]; cbn [rlookup existsb snd]; [discriminate|].
+  destruct (N_eqb_list b t) eqn:E; [reflexivity|]. intros H. exact (IH H).
+Qed.
+
+(* [auth] never says yes to a request that does not present a configured secret *)
+Lemma auth_ok_authorised c q : auth_ok (auth c q) = true -> authorised c q = true.
+Proof.
+  unfold auth, authorised.
+  destruct (Z.eqb (c_strat c) 0); [reflexivity|].
+  destruct (Z.eqb (c_strat c) 1).
+  - destruct (eff_cred c q) as [|u p|t|v]; cbn [auth_ok]; try discriminate.
+    destruct (lookup u (c_secrets c)) as [s|] eqn:L.
+    + destruct (N_eqb_list s p) eqn:E; cbn [auth_ok]; [|discriminate]. intros _. exact (lookup_exists _ _ _ _ L E).
+    + destruct p; cbn [auth_ok]; discriminate.
+  - destruct (bearer_token (eff_cred c q)) as [t|]; cbn [auth_ok]; [|discriminate].
+    destruct (rlookup t (c_secrets c)) as [n|] eqn:L; cbn [auth_ok]; [|discriminate].
+    intros _. exact (rlookup_exists _ _ _ L).
+Qed.
+
+Lemma route_unauthorised c q :
+  authorised c q = false ->
+  fst (fst (route c q)) = [] /\ (q_method q <> 2 -> snd (fst (route c q)) <> 200).
+Proof.
+  intros H.
+  assert (A : auth_ok (auth c q) = false).
+  { destruct (auth_ok (auth c q)) eqn:E; [|reflexivity]. rewrite (auth_ok_authorised _ _ E) in H. discriminate. }
+  unfold route. destruct (Z.eqb (q_method q) 2) eqn:M.
+  - apply Z.eqb_eq in M. split; [reflexivity|]. intros N. contradiction.
+  - destruct (auth c q); cbn [auth_ok] in A; try discriminate; cbn [fst snd]; split; try reflexivity; intros _; discriminate.
+Qed.
+
+Lemma route_200_after_all_in c q evs st cl :
+  route c q = (evs, st, cl) -> ingests c q = true -> st = 200 ->
+  no_err (q_reads q) = true /\ evs = split_body (concat (chunks_of (q_reads q))).
+Proof.
+  intros R I S. pose proof (route_ingests _ _ I) as E. rewrite R in E. cbn [fst] in E. subst st.
+  exact (http_ok_after_all_in _ _ (eq_sym E)).
+Qed.
+
+(* what the judge of the routed requests (which = 9) accepts for one request *)
+Definition route_req_ok (c : rcfg) (r o : sx) : Prop :=
+  exists q reads rds evs st x y z,
+    req_of_sx r = Some (q, reads) /\ as_list rd_of_sx reads = Some rds /\ q_reads q = rds /\
+    o = SL [SL evs; SZ st; x; y; z] /\
+    (ingests c q = true ->
+       (st = 200 -> no_err rds = true /\ evs = map SB (split_body (concat (chunks_of rds)))) /\
+       (st <> 200 -> no_err rds = false)) /\
+    (ingests c q = false ->
+       evs = [] /\ (authorised c q = false -> q_method q <> 2 -> st <> 200)).
+
+Lemma req_of_sx_reads r q reads :
+  req_of_sx r = Some (q, reads) -> as_list rd_of_sx reads = Some (q_reads q).
+Proof.
+  unfold req_of_sx.
+  destruct r as [?|?|[|[m|?|?] [|[?|path|?] [|[?|hsel|?] [|cr [|[?|origin|?] [|[?|?|[|cf [|xff [|xreal [|remote [|? ?]]]]]]
+    [|[?|qv|?] [|[gz|?|?] [|reads' [|? ?]]]]]]]]]]]; try discriminate.
+  destruct (cred_of_sx cr); [|discriminate].
+  destruct (ipc_of_sx cf); [|discriminate]. destruct (ipc_of_sx xff); [|discriminate].
+  destruct (ipc_of_sx xreal); [|discriminate]. destruct (ipc_of_sx remote); [|discriminate].
+  destruct (as_list rd_of_sx reads') as [rds|] eqn:E; [|discriminate].
+  destruct (Z.leb 0 m && Z.leb m 4 && gated_reads_ok gz reads'); [|discriminate].
+  intros H. inversion H; subst. cbn [q_reads]. exact E.
+Qed.
+
+Lemma route_one_meaning c r o m : route_one c r o = Some (m, true) -> route_req_ok c r o.
+Proof.
+  unfold route_one. destruct (req_of_sx r) as [[q reads]|] eqn:Hq; [|discriminate].
+  destruct (cred_ok (q_cred q)); [|discriminate].
+  destruct (route c q) as [[evs0 st0] cl0].
+  pose proof (req_of_sx_reads _ _ _ Hq) as Hr.
+  destruct o as [?|?|[|[?|?|oevs] [|[ost|?|?] [|x [|y [|z [|? ?]]]]]]]; try discriminate.
+  intros H. inversion H as [[Hm Hok]]; clear H Hm.
+  exists q, reads, (q_reads q), oevs, ost, x, y, z.
+  split; [exact Hq|]. split; [exact Hr|]. split; [reflexivity|]. split; [reflexivity|]. split.
+  - intros I. rewrite I in Hok.
+    destruct (c11_pred_meaning _ _ _ Hr Hok) as (evs & st & Ho & H1 & H2). inversion Ho; subst. split; assumption.
+  - intros I. rewrite I in Hok. apply andb_prop in Hok as [Hn Hs]. split.
+    + destruct oevs; [reflexivity|discriminate].
+    + intros A M S. rewrite A in Hs. cbn [orb] in Hs. apply orb_prop in Hs as [Hs|Hs].
+      * apply Z.eqb_eq in Hs. contradiction.
+      * subst ost. discriminate.
+Qed.
+
+(* a verdict Agree / Differ on a routed history means: every request that the configuration lets through to processBulk
+   (POST, bulk route of the emulate mode, a configured secret) delivered exactly the newline split of its body when it was
+   answered 200 and was answered 200 unless a read failed; every other request handed over nothing, and a request without
+   a configured secret was not answered 200 *)
+Lemma route_verdict_sound case obs :
+  (c11_route_run case obs = Agree \/ exists m, c11_route_run case obs = Differ m) ->
+  exists cfg c reqs outs,
+    case = SL [cfg; SL reqs] /\ cfg_of_sx cfg = Some c /\ obs = SL outs /\ Forall2 (route_req_ok c) reqs outs.
+Proof.
+  intros H. unfold c11_route_run in H.
+  destruct case as [?|?|[|cfg [|reqs [|? ?]]]]; try (destruct H as [H|[m H]]; discriminate).
+  destruct (cfg_of_sx cfg) as [c|] eqn:Hc; [|destruct H as [H|[m H]]; discriminate].
+  destruct (cfg_ok c); [|destruct H as [H|[m H]]; discriminate].
+  unfold pairs_run in H.
+  destruct reqs as [?|?|reqs]; try (destruct H as [H|[m H]]; discriminate).
+  destruct obs as [?|?|outs]; try (destruct H as [H|[m H]]; discriminate).
+  destruct (pairs_go (route_one c) reqs outs) as [[ms ok]|] eqn:Hg; [|destruct H as [H|[m H]]; discriminate].
+  destruct ok; [|destruct H as [H|[m H]]; discriminate].
+  exists cfg, c, reqs, outs. repeat split; try assumption.
+  pose proof (pairs_go_true _ _ _ _ Hg) as F. clear Hg H.
+  induction F as [|r o rs os [m Hm] F IH]; constructor; [eapply route_one_meaning; exact Hm|exact IH].
+Qed.
